@@ -30,13 +30,15 @@ CONSTANTS BeadSeq,    \* sequence of the bead ids that may be added (not 1..n)
           RefV, RefE, RefAttrSeq,   \* persistent reference structure (ids sequence, edge set, palette indices)
           Inits,      \* set of initial structures [v |-> set, e |-> set]; built by a canonical call prefix
           WithSub,    \* include the getSubStructure calls in the alphabet
+          WithFork,   \* include copying the object / probing the abandoned original
           Depth, Emit
 VARIABLES beads, conns,                      \* abstract state
           gUp, sidUp, singleUp,              \* cache flags
           gSnap, sidSnap, singleVal,         \* what the caches hold (snapshots of the state they were computed from)
           refSidUp,                          \* structureIdUpToDate of the reference object
+          act, orig,                         \* handle in use (slot 0 or 3); state the abandoned handle must still show
           fresh, k, h
-vars == <<beads, conns, gUp, sidUp, singleUp, gSnap, sidSnap, singleVal, refSidUp, fresh, k, h>>
+vars == <<beads, conns, gUp, sidUp, singleUp, gSnap, sidSnap, singleVal, refSidUp, act, orig, fresh, k, h>>
 
 BeadIds == {BeadSeq[i] : i \in 1..Len(BeadSeq)}
 Idx(v) == CHOOSE i \in 1..Len(BeadSeq) : BeadSeq[i] = v
@@ -85,10 +87,13 @@ Prefix(c) == LET vo == SetToSortSeq(c.v, LAMBDA a, b : a > b)
                  eo == SetToSortSeq(c.e, LAMBDA a, b : a[2] < b[2] \/ (a[2] = b[2] /\ a[1] > b[1]))
              IN [i \in 1..Len(vo) |-> AddRec(vo[i], TRUE)] \o [i \in 1..Len(eo) |-> ConnRec(eo[i][2], eo[i][1], TRUE)]
 
+\* every logged call says on which handle it is made
+Log(r) == Append(h, r @@ ("on" :> act))
 Init == /\ \E c \in Inits : beads = c.v /\ conns = c.e /\ h = Prefix(c)
         /\ gUp = FALSE /\ sidUp = FALSE /\ singleUp = FALSE
         /\ gSnap = Empty /\ sidSnap = Empty /\ singleVal = FALSE
         /\ refSidUp = FALSE /\ fresh = TRUE /\ k = 0
+        /\ act = 0 /\ orig = <<>>
 
 \* ---- mutations ---------------------------------------------------------------------------------
 Invalidate == gUp' = FALSE /\ sidUp' = FALSE /\ singleUp' = FALSE
@@ -96,14 +101,14 @@ AddBead(v) ==
   /\ IF v \in beads
        THEN UNCHANGED <<beads, gUp, sidUp, singleUp>>          \* invalid_argument, nothing changes
        ELSE beads' = beads \cup {v} /\ Invalidate
-  /\ h' = Append(h, AddRec(v, v \notin beads))
+  /\ h' = Log(AddRec(v, v \notin beads))
   /\ UNCHANGED <<conns, gSnap, sidSnap, singleVal, refSidUp, fresh>>
 ConnectBeads(x, y) ==
   LET bad == x \notin beads \/ y \notin beads \/ x = y IN
   /\ IF bad \/ Ed(x, y) \in conns
        THEN UNCHANGED <<conns, gUp, sidUp, singleUp>>         \* exception, or the set did not grow: flags kept
        ELSE conns' = conns \cup {Ed(x, y)} /\ Invalidate
-  /\ h' = Append(h, ConnRec(x, y, ~bad))
+  /\ h' = Log(ConnRec(x, y, ~bad))
   /\ UNCHANGED <<beads, gSnap, sidSnap, singleVal, refSidUp, fresh>>
 
 \* ---- queries -----------------------------------------------------------------------------------
@@ -114,7 +119,7 @@ IsSingle ==
   /\ singleVal' = SingleAns
   /\ singleUp' = (singleUp \/ SingleAns)              \* only a TRUE answer is cached
   /\ fresh' = (fresh /\ SingleAns = SpecSingle(beads, conns))
-  /\ h' = Append(h, [a |-> "single", exp |-> SpecSingle(beads, conns), defined |-> beads # {}])
+  /\ h' = Log([a |-> "single", exp |-> SpecSingle(beads, conns), defined |-> beads # {}])
   /\ UNCHANGED <<beads, conns, sidUp, sidSnap, refSidUp>>
 
 Sid1 == IF sidUp THEN sidSnap ELSE G1                 \* what structure_id_ describes after CalculateStructure_()
@@ -128,14 +133,14 @@ Equiv(kind) ==          \* kind: "copy" (relabelled), "alt" (different multiset)
   IN /\ CalcSid
      /\ refSidUp' = (refSidUp \/ kind = "ref")
      /\ fresh' = (fresh /\ ans = exp)
-     /\ h' = Append(h, [a |-> "equiv", kind |-> kind, exp |-> exp, other |-> IF kind = "ref" THEN <<>> ELSE <<d>>])
+     /\ h' = Log([a |-> "equiv", kind |-> kind, exp |-> exp, other |-> IF kind = "ref" THEN <<>> ELSE <<d>>])
      /\ UNCHANGED <<beads, conns, singleUp, singleVal>>
 
 GraphRec(c) == [v |-> c.v, e |-> c.e, at |-> LET vo == SetToSeq(c.v) IN [i \in 1..Len(vo) |-> <<vo[i], AttrOf(vo[i])>>]]
 GetGraph ==
   /\ gUp' = TRUE /\ gSnap' = G1
   /\ fresh' = (fresh /\ G1 = Cur)
-  /\ h' = Append(h, [a |-> "graph", exp |-> GraphRec(Cur)])
+  /\ h' = Log([a |-> "graph", exp |-> GraphRec(Cur)])
   /\ UNCHANGED <<beads, conns, sidUp, sidSnap, singleUp, singleVal, refSidUp>>
 
 Break ==
@@ -143,28 +148,45 @@ Break ==
   /\ gUp' = TRUE /\ gSnap' = G1
   /\ singleVal' = SingleAns /\ singleUp' = (singleUp \/ SingleAns)
   /\ fresh' = (fresh /\ ans = SpecParts(beads, conns))
-  /\ h' = Append(h, [a |-> "break", exp |-> SpecParts(beads, conns)])
+  /\ h' = Log([a |-> "break", exp |-> SpecParts(beads, conns)])
   /\ UNCHANGED <<beads, conns, sidUp, sidSnap, refSidUp>>
 
 \* getSubStructure: "all" = everything; "drop" = without the smallest bead and its edges;
 \* "bad" = everything plus a connection that does not exist (documented runtime_error)
 Sub(kind) ==
   LET drop == IF beads = {} THEN {} ELSE {GMin(beads)}
-      ids == IF kind = "drop" THEN beads \ drop ELSE beads
+      ids == IF kind = "drop" THEN beads \ drop ELSE IF kind = "badid" THEN beads \cup {Fresh} ELSE beads
       missing == AllPairs(beads) \ conns
       es == IF kind = "drop" THEN {e \in conns : Ends(e) \cap drop = {}}
             ELSE IF kind = "bad" THEN conns \cup {CHOOSE e \in missing : TRUE} ELSE conns
   IN /\ (kind = "bad" => missing # {})
-     /\ h' = Append(h, [a |-> "sub", ids |-> SetToSeq(ids), es |-> SetToSeq(es),
-                        exp |-> IF kind = "bad" THEN <<>> ELSE <<GraphRec([v |-> ids, e |-> es])>>])
+     /\ h' = Log([a |-> "sub", ids |-> SetToSeq(ids), es |-> SetToSeq(es),
+                        exp |-> IF kind \in {"bad", "badid"} THEN <<>> ELSE <<GraphRec([v |-> ids, e |-> es])>>])
      /\ UNCHANGED <<beads, conns, gUp, sidUp, singleUp, gSnap, sidSnap, singleVal, refSidUp, fresh>>
 
+(* Two handles: Fork copies the object in use into the other slot (copy constructor when that slot
+   is unused, copy assignment over the used object otherwise) and carries on with the COPY - a
+   C++ copy carries the flags and cached values, so nothing changes in the model, which is exactly
+   the claim "a copy answers like the original".  The abandoned original must keep showing the
+   state it had at the fork (Probe), whatever is done to the copy afterwards.                  *)
+Fork ==
+  /\ act' = 3 - act /\ orig' = <<GraphRec(Cur)>>
+  /\ h' = Log([a |-> "fork", to |-> 3 - act, mode |-> IF orig = <<>> THEN 0 ELSE 1])
+  /\ UNCHANGED <<beads, conns, gUp, sidUp, singleUp, gSnap, sidSnap, singleVal, refSidUp, fresh>>
+Probe ==
+  /\ orig # <<>>
+  /\ h' = Log([a |-> "probe", slot |-> 3 - act, exp |-> orig[1]])
+  /\ UNCHANGED <<beads, conns, gUp, sidUp, singleUp, gSnap, sidSnap, singleVal, refSidUp, fresh, act, orig>>
+
+NextCall ==
+  \/ \E v \in BeadIds : AddBead(v)
+  \/ \E x, y \in BeadIds : x < y /\ ConnectBeads(y, x)
+  \/ ConnectBeads(BeadSeq[1], BeadSeq[1])
+  \/ IsSingle \/ Equiv("copy") \/ Equiv("alt") \/ Equiv("ref") \/ GetGraph \/ Break
+  \/ (WithSub /\ (Sub("all") \/ Sub("drop") \/ Sub("bad") \/ Sub("badid")))
 Next == /\ k < Depth /\ k' = k + 1
-        /\ \/ \E v \in BeadIds : AddBead(v)
-           \/ \E x, y \in BeadIds : x < y /\ ConnectBeads(y, x)
-           \/ ConnectBeads(BeadSeq[1], BeadSeq[1])
-           \/ IsSingle \/ Equiv("copy") \/ Equiv("alt") \/ Equiv("ref") \/ GetGraph \/ Break
-           \/ (WithSub /\ (Sub("all") \/ Sub("drop") \/ Sub("bad")))
+        /\ \/ (WithFork /\ (Fork \/ Probe))
+           \/ (UNCHANGED <<act, orig>> /\ NextCall)
 Spec == Init /\ [][Next]_vars
 
 \* ---- properties ------------------------------------------------------------------------------------
